@@ -274,12 +274,14 @@ def ctOfChar : Char → Option CT
 def parseFlags (s : String) : Option (Bool × CT) :=
   if s == "-" then some (false, .json)
   else
-    match s.toList.filter (· != 'f') with
-    | [] => if s.toList == ['f'] then some (true, .json) else none
-    | [c] =>
-      if s.toList.length ≤ 2 && (s.toList.length == 1 || s.toList.head? == some 'f') then
-        (ctOfChar c).map fun ct => (s.contains 'f', ct)
-      else none
+    -- optional `f` (Cache-Control: must-revalidate) or `F` ("no-cache, must-revalidate": not the exact value
+    -- the handlers compare with, so not forced), then at most one Content-Type letter
+    match s.toList with
+    | ['f'] => some (true, .json)
+    | ['F'] => some (false, .json)
+    | ['f', c] => (ctOfChar c).map fun ct => (true, ct)
+    | ['F', c] => (ctOfChar c).map fun ct => (false, ct)
+    | [c] => (ctOfChar c).map fun ct => (false, ct)
     | _ => none
 
 def pathOK (p : Bytes) : Bool :=
